@@ -245,7 +245,14 @@ def check(ctx):
         callee = oinit if c in octor else load
         b = bind_args(callee, c)
         ep = b.get("evaluation_parameters")
-        okd = isinstance(ep, ast.Dict) and len(ep.keys) == 1 and const_str(ep.keys[0]) == "D" and canon(ep.values[0]) == "self.D"
+        from .common import deref_canon as _dc20, leaf_definitions as _ld20
+
+        if isinstance(ep, ast.Name):
+            # the dictionary literal kept in a local and handed to both loads
+            lds = [d_ for d_ in _ld20(prog, init, ep.id, c) if d_ is not None]
+            if len(lds) == 1 and isinstance(lds[0], ast.Dict):
+                ep = lds[0]
+        okd = isinstance(ep, ast.Dict) and len(ep.keys) == 1 and const_str(ep.keys[0]) == "D" and _dc20(prog, init, ep.values[0]) == "self.D"
         ctx.check(okd, init, c, "load evaluated with {'D': self.D}", "an option file is evaluated with something other than the instance's own dimension", construct=f"evaluation_parameters={canon(ep) if ep is not None else None}")
     oload = [c for c, tg in prog.calls_in(oinit) if load in tg]
     for c in oload:
